@@ -105,7 +105,36 @@ def coq_trace_case(prog, tr):
                                                     names(tr["globals1"]))
 
 
-K_IMPORTS = "Lib.Str Model.TALES Model.TALProg Model.TALVM Corr.K17"
+def coq_atts(a):
+    return tlist(("(%s, %s)" % (coq_s(k), "None" if v is None else "Some %s" % coq_s(v)) for k, v in a), "str * option str")
+
+
+def coq_event(ev):
+    k = ev[0]
+    if k == "S":
+        return "EvStart %s %s" % (coq_s(ev[1]), coq_atts(ev[2]))
+    if k == "SE":
+        return "EvStartEnd %s %s" % (coq_s(ev[1]), coq_atts(ev[2]))
+    if k == "E":
+        return "EvEnd " + coq_s(ev[1])
+    if k == "T":
+        return "EvData %s %s" % (coq_s(ev[1]), coq_bool(ev[2]))
+    if k == "C":
+        return "EvComment " + coq_s(ev[1])
+    if k == "D":
+        return "EvDecl " + coq_s(ev[1])
+    if k == "P":
+        return "EvPi " + coq_s(ev[1])
+    raise ValueError("event %r is not part of the compiler model" % (ev,))
+
+
+def coq_compile_case(variant, events, prog):
+    evs = tlist((coq_event(e) for e in events), "event")
+    real = "None" if prog is None else "(Some %s)" % coq_program(prog)
+    return "((%s, (%s, %s)), (%s, %s))" % (coq_bool(variant[0]), coq_bool(variant[1]), coq_bool(variant[2]), evs, real)
+
+
+K_IMPORTS = "Lib.Str Model.TALES Model.TALProg Model.TALVM Model.TALCompile Corr.K17"
 K_PRE = "From Coq Require Import String.\n"
 
 
@@ -117,6 +146,46 @@ def k_wf(prop, name, progs, shard=150):
 def k_trace(prop, name, items, shard=100):
     cases = [coq_trace_case(p, t) for p, t in items]
     return coq_eval(prop, name, K_IMPORTS, "chk_trace", cases, shard=shard, pre=K_PRE)
+
+
+def k_compile(prop, name, items, variant, shard=120):
+    """items: [(events, real program or None)]"""
+    cases = [coq_compile_case(variant, ev, p) for ev, p in items]
+    return coq_eval(prop, name, K_IMPORTS, "chk_compile", cases, shard=shard, pre=K_PRE)
+
+
+PROBES = [('<p tal:content="text foo">d</p>', "text"), ('<script>a<b</script>', "cdata"), ('<p tal:content="x">d', "eof")]
+
+
+def probe_variant():
+    """Which of the three repairs does the code under test contain?  (v_text, v_cdata, v_eof) —
+    selects the variant of Model/TALCompile.v that K compares with; K then checks that variant
+    on every generated template."""
+    res = run_cases([{"id": i, "main": src, "lib": None, "ctx": {}, "options": None, "want": ["prog"]}
+                     for i, (src, _) in enumerate(PROBES)])
+    cmds0 = (res[0].get("prog") or {}).get("main", {}).get("cmds", [])
+    v_text = any(c[0] == 4 and c[3] == "foo" for c in cmds0)
+    cmds1 = (res[1].get("prog") or {}).get("main", {}).get("cmds", [])
+    v_cdata = any(c[0] == 9 and "a<b" in c[1] for c in cmds1)
+    v_eof = "compile_exc" in res[2]
+    return (v_text, v_cdata, v_eof)
+
+
+# templates that exercise the compiler's error paths and corner cases (compile model K)
+MALFORMED = ['<p tal:content="x">unclosed', '<p tal:define="x">bad</p>', '<b><p tal:content="x"></b>', '</p>',
+             '<p metal:fill-slot="s">x</p>', '<p tal:content="">e</p>', '<tal:block content="x">b</tal:block>',
+             '<metal:block define-macro="m9" tal:omit-tag="">b</metal:block>', '<p tal:repeat="x">r</p>',
+             '<div metal:define-macro="1x">m</div>', '<p tal:attributes="a">r</p>',
+             '<p tal:define="a b;; c; global d e f;local g h;x y  z">r</p>', '<br tal:content="x"><img tal:omit-tag>',
+             '<p tal:content="a text b">x</p>', '<p tal:content="text">x</p>', '<p tal:replace="structure">x</p>',
+             '<div metal:define-macro="m">a</div><div metal:define-macro="m">b</div>', '<p tal:condition="">c</p>',
+             '<p metal:use-macro="">c</p>', '<p metal:define-slot="">c</p>', '<p metal:define-slot="a b">c</p>',
+             '<div metal:use-macro="m"><i metal:fill-slot="s">1</i><i metal:fill-slot="s">2</i></div>',
+             '<p tal:content="a" tal:replace="b">both</p>', '<p tal:define="a b" tal:define="c d">dup</p>',
+             '<ul><li tal:repeat="i l">a<li>b</ul>', '<p tal:attributes="a b;;c; d e">x</p>', '<p tal:omit-tag>v</p>',
+             '<input tal:attributes="checked c" disabled>', '<p xmlns:foo="http://example.org/ns" foo:bar="1">n</p>',
+             '<a tal:define="x string:a;;b;;;c">s</a>', '<p tal:repeat="i  l">two spaces</p>', '<P TAL:CONTENT="x">case</P>',
+             '<p tal:content="structure  x">x</p>', '<br/><hr tal:condition="c"/><p tal:content="x"/>']
 
 
 # ----------------------------------------------------------------------------
@@ -236,3 +305,101 @@ def py_wf(prog):
         if b not in sym or spans.get(a) != sym[b]:
             return "sub-template %r (%d, symbol %d) is not one element of the program" % (n, a, b)
     return None
+
+
+class Findings:
+    """One replay per stable tag (the smallest input), so that a defect that shows on many generated
+    templates prints one line."""
+
+    def __init__(self, chk):
+        self.chk = chk
+        self.best = {}
+        self.count = {}
+
+    def add(self, tag, rep, size):
+        self.count[tag] = self.count.get(tag, 0) + 1
+        if tag not in self.best or size < self.best[tag][0]:
+            self.best[tag] = (size, rep)
+
+    def flush(self):
+        for tag in sorted(self.best):
+            rep = dict(self.best[tag][1])
+            rep["occurrences"] = self.count[tag]
+            self.chk.violation(rep, tag=tag)
+        n = len(self.best)
+        self.best, self.count = {}, {}
+        return n
+
+
+# ----------------------------------------------------------------------------
+# K: Context.evaluate and the output functions
+# ----------------------------------------------------------------------------
+EVAL_PY = ["1+1", "'a<b'", "None", "[]", "s1", "len(l1)", "path('s1')", "undefined_name", "string('x $k1 ')", "exists('nope')"]
+
+
+def coq_cval(v):
+    return "(%s, (%s, (%s, %s)))" % (coq_s(v[0]), coq_bool(v[1]), coq_bool(v[2]), coq_bool(v[3]))
+
+
+def coq_opt_cval(v):
+    return "None" if v is None else "(Some %s)" % coq_cval(v)
+
+
+def eval_cases(rng, n_ctx, per_ctx):
+    """[(allow, ctx spec, [expr...])]"""
+    out = []
+    for i in range(n_ctx):
+        ctx = talgen.gen_context(rng, True)
+        sc = talgen.Scope(names=list(talgen.CTX_NAMES) + ["k1", "k2"])
+        exprs = []
+        for _ in range(per_ctx):
+            exprs.append(talgen.gen_expr(rng, sc, None, 0, EVAL_PY if rng.random() < 0.5 else None))
+        exprs += ["python:1+1", "not:python:s1", "nope | python:'x'", "string:a ${python:1+1} b", "exists:nope | python:1",
+                  "string:$s1 ${l1/0} $$ $nope/x ${", "not:", "exists:", "", "string:", "path: s1 |  t1", "nocall:f1", "f1",
+                  "not:default", "not:nothing", "s1|", "|s1", "string:$", "string:${s1", "string:$ x"]
+        out.append({"allow": i % 2, "ctx": ctx, "exprs": exprs})
+    return out
+
+
+def k_eval(prop, name, cases, shard=400):
+    """runs the real Context.evaluate (traversals and python evaluations recorded) and the model in Coq"""
+    res = impl_run_parallel([{"op": "tal_eval", "cases": cases[i:i + 8]} for i in range(0, len(cases), 8)])
+    lits, src, skipped = [], [], 0
+    k = 0
+    for r in res:
+        if not r["ok"]:
+            raise RuntimeError(r["err"] + "\n" + r.get("tb", ""))
+        for per_case in r["res"]:
+            case = cases[k]
+            k += 1
+            for expr, rr in zip(case["exprs"], per_case):
+                if "exc" in rr:
+                    skipped += 1
+                    continue
+                tr = tlist(("((%s, %s), %s)" % (coq_s(p), coq_bool(c), coq_opt_cval(v)) for p, c, v in rr["trav"]),
+                           "(str * bool) * option cval")
+                pt = tlist(("(%s, %s)" % (coq_s(e), coq_cval(v)) for e, v in rr["py"]), "str * cval")
+                lits.append("(((%s, %s), (%s, %s)), (%s, %d%%nat))" % (coq_bool(case["allow"]), coq_s(expr), tr, pt,
+                                                                   coq_opt_cval(rr["res"]), rr["evals"]))
+                src.append({"expression": expr, "allow_python": case["allow"], "context": case["ctx"], "real": rr})
+    mism, err, nsh = coq_eval(prop, name, K_IMPORTS, "chk_eval", lits, shard=shard, pre=K_PRE)
+    return mism, err, nsh, src, skipped
+
+
+def k_out(prop, name, rng, n):
+    vals = talgen.HOSTILE + talgen.BENIGN + ["", " ", "a\nb", "\u00e9", "&&&", "<<>>", "\"\"", "''"]
+    inputs = []
+    for i in range(n):
+        tag = rng.choice(talgen.BLOCK_TAGS + list(talgen.VOID))
+        atts = [[rng.choice(talgen.ATTR_NAMES), rng.choice(vals)] for _ in range(rng.choice([0, 1, 2, 3]))]
+        inputs.append([tag, atts, rng.choice(vals) if i >= len(vals) else vals[i]])
+    from common import impl_run
+    r = impl_run([{"op": "tal_escape", "inputs": inputs}])[0]
+    if not r["ok"]:
+        raise RuntimeError(r["err"] + "\n" + r.get("tb", ""))
+    lits = []
+    for (tag, atts, v), row in zip(inputs, r["res"]):
+        lits.append("((%s, (%s, %s)), (%s, (%s, (%s, (%s, %s)))))" % (
+            coq_s(tag), coq_pairs(atts), coq_s(v), coq_s(row[0]), coq_s(row[1]), coq_s(row[2]), coq_s(row[3]), coq_s(row[4])))
+    mism, err, nsh = coq_eval(prop, name, K_IMPORTS, "chk_out", lits, shard=500, pre=K_PRE)
+    return mism, err, nsh, inputs, r["res"]
